@@ -32,6 +32,7 @@ type edit struct {
 }
 
 type differ struct {
+	memo    *memo
 	a, b    starlark.Sliceable
 	m, n    int
 	reverse bool
@@ -44,7 +45,7 @@ type differ struct {
 	routeSize      int
 }
 
-func diffSlice(a, b starlark.Sliceable, depth int) (*SliceableDiff, error) {
+func (memo *memo) diffSlice(a, b starlark.Sliceable, depth int) (*SliceableDiff, error) {
 	old, new := a, b
 	m, n := a.Len(), b.Len()
 	reverse := false
@@ -55,6 +56,7 @@ func diffSlice(a, b starlark.Sliceable, depth int) (*SliceableDiff, error) {
 	}
 
 	d := differ{
+		memo:      memo,
 		a:         a,
 		b:         b,
 		m:         m,
@@ -100,7 +102,7 @@ func copySliceable(s starlark.Sliceable) starlark.Sliceable {
 	return tuple
 }
 
-func diffReplacements(old, new starlark.Sliceable, depth int) (starlark.Tuple, error) {
+func (memo *memo) diffReplacements(old, new starlark.Sliceable, depth int) (starlark.Tuple, error) {
 	// Attempting to diff some elements will infinitely recur.
 	if indexReturnsSlice(old) && indexReturnsSlice(new) {
 		return starlark.Tuple{&LiteralDiff{valueDiff: valueDiff{old: old, new: new}}}, nil
@@ -108,7 +110,7 @@ func diffReplacements(old, new starlark.Sliceable, depth int) (starlark.Tuple, e
 
 	diffs := make(starlark.Tuple, old.Len())
 	for i := range diffs {
-		d, err := DiffDepth(old.Index(i), new.Index(i), depth)
+		d, err := memo.diff(old.Index(i), new.Index(i), depth)
 		if err != nil {
 			return nil, err
 		}
@@ -200,7 +202,7 @@ func (diff *differ) compose() (starlark.Tuple, error) {
 
 		if old.Len() < new.Len() {
 			// replace followed by add
-			diffs, err := diffReplacements(old, slice(new, 0, old.Len()), diff.depth)
+			diffs, err := diff.memo.diffReplacements(old, slice(new, 0, old.Len()), diff.depth)
 			if err != nil {
 				return nil, err
 			}
@@ -210,7 +212,7 @@ func (diff *differ) compose() (starlark.Tuple, error) {
 			edits = append(edits, edit)
 		} else if old.Len() > new.Len() {
 			// replace followed by delete
-			diffs, err := diffReplacements(slice(old, 0, new.Len()), new, diff.depth)
+			diffs, err := diff.memo.diffReplacements(slice(old, 0, new.Len()), new, diff.depth)
 			if err != nil {
 				return nil, err
 			}
@@ -220,7 +222,7 @@ func (diff *differ) compose() (starlark.Tuple, error) {
 			edits = append(edits, edit)
 		} else {
 			// pure replace
-			diffs, err := diffReplacements(old, new, diff.depth)
+			diffs, err := diff.memo.diffReplacements(old, new, diff.depth)
 			if err != nil {
 				return nil, err
 			}
@@ -242,7 +244,7 @@ func (diff *differ) snake(k, p, pp, offset int) (int, error) {
 	x := y - k
 
 	for x < diff.m && y < diff.n {
-		eq, err := starlark.EqualDepth(diff.a.Index(x), diff.b.Index(y), 1000)
+		eq, err := diff.memo.equalDepth(diff.a.Index(x), diff.b.Index(y), 1000)
 		if err != nil {
 			return 0, err
 		}
